@@ -629,6 +629,11 @@ class StateEngine(object):
 
         state_machine_type = state_machine.get("type")
         if state_machine_type == "STANDARD":
+            """
+            A failed execution has not passed through update_execution_history
+            above, so cater for the metadata having been lost by a restart.
+            """
+            self.restore_lost_execution_metadata(execution_arn)
             execution_detail = self.executions[execution_arn]
             state_machine_arn = execution_detail["stateMachineArn"]
         else:
@@ -754,6 +759,39 @@ class StateEngine(object):
         if execution_failed and execution_arn in self.branch_metadata:
             self.check_pending_results(execution_arn)
 
+    def restore_lost_execution_metadata(self, execution_arn):
+        """
+        self.executions.get(execution_arn) == None should only really happen if
+        the StateEngine has failed and been restarted and we are handling a
+        redelivered message. When we add code IDC to persist execution metadata
+        state we should hopefully be able to avoid the following condition upon
+        StateEngine restart.
+        """
+        if self.executions.get(execution_arn) == None:
+            self.logger.warning(
+                "StateEngine: Execution {} does not "
+                "exist, probably due to StateEngine restart. Some history "
+                "metadata has been lost!".format(execution_arn))
+
+            # Derive missing fields from execution_arn
+            split = execution_arn.rpartition(':')
+            arn = parse_arn(split[0])
+            arn["resource_type"] = "stateMachine"
+            state_machine_arn = create_arn(arn)
+            name = split[2]
+
+            self.executions[execution_arn] = {
+                "executionArn": execution_arn,
+                "input": None,
+                "name": name,
+                "output": None,
+                "startDate": time.time(),
+                "stateMachineArn": state_machine_arn,
+                "status": "RUNNING",
+                "stopDate": None,
+            }
+            self.execution_history[execution_arn] = []
+
     def update_execution_history(
             self, state_machine, execution_arn, update_type, details
         ):
@@ -860,37 +898,7 @@ class StateEngine(object):
         if state_machine_type == "EXPRESS":
             return
 
-        """
-        self.executions.get(execution_arn) == None should only really happen if
-        the StateEngine has failed and been restarted and we are handling a
-        redelivered message. When we add code IDC to persist execution metadata
-        state we should hopefully be able to avoid the following condition upon
-        StateEngine restart.
-        """
-        if self.executions.get(execution_arn) == None:
-            self.logger.warning(
-                "StateEngine: update_execution_history: Execution {} does not "
-                "exist, probably due to StateEngine restart. Some history "
-                "metadata has been lost!".format(execution_arn))
-
-            # Derive missing fields from execution_arn
-            split = execution_arn.rpartition(':')
-            arn = parse_arn(split[0])
-            arn["resource_type"] = "stateMachine"
-            state_machine_arn = create_arn(arn)
-            name = split[2]
-
-            self.executions[execution_arn] = {
-                "executionArn": execution_arn,
-                "input": None,
-                "name": name,
-                "output": None,
-                "startDate": time.time(),
-                "stateMachineArn": state_machine_arn,
-                "status": "RUNNING",
-                "stopDate": None,
-            }
-            self.execution_history[execution_arn] = []
+        self.restore_lost_execution_metadata(execution_arn)
 
         history = self.execution_history[execution_arn]
         """
@@ -1464,7 +1472,12 @@ class StateEngine(object):
             if error_type == "States.TaskFailed":
                 boiler_plate = ""
             elif state_machine_type == "STANDARD":
-                id = len(self.execution_history[execution_arn])
+                """
+                Use get() as the history could be missing if the StateEngine
+                has been restarted and is handling a redelivered message that
+                hasn't yet caused any history update, e.g. a retried Task.
+                """
+                id = len(self.execution_history.get(execution_arn, []))
                 boiler_plate = (
                     "An error occurred while executing the state "
                     "\"{}\" (entered at the event id #{}). "
